@@ -1109,12 +1109,17 @@ class DestHandler:
         ):
             file_delivery_complete = True
         else:
-            crc32 = self.user.vfs.calculate_checksum(
-                self._params.checksum_type,
-                self._params.fp.file_name,
-                self._params.fp.progress,
-            )
-            if crc32 == self._params.fp.crc32:
+            try:
+                crc32 = self.user.vfs.calculate_checksum(
+                    self._params.checksum_type,
+                    self._params.fp.file_name,
+                    self._params.fp.progress,
+                )
+            except (FileNotFoundError, PermissionError):
+                # The file does not exist or can not be read, for example because the filestore
+                # rejected its creation and that fault was ignored.
+                crc32 = None
+            if crc32 is not None and crc32 == self._params.fp.crc32:
                 file_delivery_complete = True
             else:
                 self._declare_fault(ConditionCode.FILE_CHECKSUM_FAILURE)
